@@ -1,5 +1,160 @@
-import EqlModel.Eval
-import EqlModel.Build
+/-
+  C01 — a single-variable query is an exact, ordered, duplicate-free domain filter.
+
+    c01_filter          rows (an(entity(x, c))) = [o ∈ dom | ⟦c⟧ o], as a LIST: order and
+                        multiplicity included (constructed tree `c`)
+    c01_filter_surface  the same for the surface syntax, through `build` (and_/or_/not_, the six
+                        comparisons with a value on either side, in_/contains, boolean
+                        expressions, predicates), with the truth of the condition read as
+                        ordinary Python (`sdenote`)
+    c01_each_once       with distinct domain objects no object is returned twice
+    c01_domain          `let(T, d)` ranges over the members of `d` that are instances of `T`,
+                        in the order of `d`, each once
+  Scope: every leaf of the condition mentions the variable (a leaf built from literals only is
+  covered by the correspondence check, not by this theorem); no flatten.
+-/
+import EqlModel.Lemmas.Closed
+import EqlModel.Lemmas.BuildLemmas
+import EqlModel.Props.C03
+import EqlModel.SpecExec
+
 namespace Eql
-theorem c01_placeholder : True := trivial
+variable {V : Type}
+variable (W : World V) (D : VarId → List V)
+
+private theorem flatMap_filter_single (l : List V) (p : V → Bool) :
+    l.flatMap (fun o => if p o = true then [[o]] else []) = (l.filter p).map (fun o => [o]) := by
+  induction l with
+  | nil => rfl
+  | cons o os ih =>
+    rcases Bool.eq_false_or_eq_true (p o) with h | h <;> simp [List.filter, h, ih]
+
+/-- **C01 (constructed tree).** The result list of a single-variable query equals the domain
+    filtered by the meaning of its condition — same objects, same order, same multiplicity. -/
+theorem c01_filter [Inhabited V] (x : VarId) (c : Cond V) (hf : c.noFlat = true)
+    (hs : Cond.single x c) :
+    rows W D ⟨[.var x], some c⟩ =
+      ((D x).filter fun o => denote W (constAsg o) c).map fun o => [o] := by
+  simp only [rows]
+  rw [cond_dist W D x c hf hs false, List.flatMap_assoc, ← flatMap_filter_single]
+  apply flatMap_fun_congr
+  intro o
+  simp only [singleOut, closedOut]
+  rcases Bool.eq_false_or_eq_true (denote W (constAsg o) c) with h | h
+  · simp [h, evalArgs, evalTerm, List.lookup]
+  · simp [h]
+
+/-- Every leaf of a surface condition mentions `x` and only `x`. -/
+def SCond.single (x : VarId) : SCond V → Prop
+  | .cmp _ l r => (∀ v ∈ l.vars ++ r.vars, v = x) ∧ (l.vars ≠ [] ∨ r.vars ≠ [])
+  | .in_ i c => (∀ v ∈ i.vars ++ c.vars, v = x) ∧ (i.vars ≠ [] ∨ c.vars ≠ [])
+  | .contains c i => (∀ v ∈ c.vars ++ i.vars, v = x) ∧ (c.vars ≠ [] ∨ i.vars ≠ [])
+  | .truth t => (∀ v ∈ t.vars, v = x) ∧ t.vars ≠ []
+  | .pred _ args => (∀ v ∈ Terms.vars args, v = x) ∧ Terms.vars args ≠ []
+  | .and2 l r => SCond.single x l ∧ SCond.single x r
+  | .or2 l r => SCond.single x l ∧ SCond.single x r
+  | .not c => SCond.single x c
+  | .sub sel c => SCond.single x c ∧ (∀ v ∈ Terms.vars sel, v = x)
+
+theorem neg_single (x : VarId) : ∀ (c : Cond V), Cond.single x c → Cond.single x (neg c) := by
+  intro c
+  induction c with
+  | cmp op l r => intro h; exact h
+  | truth inv t => intro h; exact h
+  | pred inv n args => intro h; exact h
+  | and l r ihl ihr => intro h; simp only [neg, Gen.notAndBuildsElseIf, if_true]; exact ⟨ihl h.1, ihr h.2⟩
+  | elseIf l r ihl ihr => intro h; simp only [neg, Gen.notOrBuildsAnd, if_true]; exact ⟨ihl h.1, ihr h.2⟩
+  | sub sel c ih => intro h; exact ⟨ih h.1, h.2⟩
+
+theorem build_single (x : VarId) : ∀ (c : SCond V), SCond.single x c → Cond.single x (build c) := by
+  intro c
+  induction c with
+  | cmp op l r =>
+    intro h
+    simp only [build, buildCmp]
+    split <;> cases op <;> simp only [Gen.dunder, SurfOp.mirror, Bool.false_eq_true, if_false]
+    all_goals first
+      | exact h
+      | exact ⟨fun v hv => h.1 v (by simp only [List.mem_append] at hv ⊢; exact hv.symm), h.2.symm⟩
+  | in_ i c =>
+    intro h
+    simp only [build, buildIn, Gen.inCmp, if_true]
+    exact ⟨fun v hv => h.1 v (by simp only [List.mem_append] at hv ⊢; exact hv.symm), h.2.symm⟩
+  | contains c i =>
+    intro h
+    simp only [build, buildContains, buildIn, Gen.inCmp, Gen.containsDelegatesSwapped, if_true]
+    exact h
+  | truth t => intro h; exact h
+  | pred n args => intro h; exact h
+  | and2 l r ihl ihr => intro h; exact ⟨ihl h.1, ihr h.2⟩
+  | or2 l r ihl ihr => intro h; exact ⟨ihl h.1, ihr h.2⟩
+  | not c ih => intro h; exact neg_single x _ (ih h)
+  | sub sel c ih => intro h; exact ⟨ih h.1, h.2⟩
+
+/-- **C01 (surface syntax).** `list(an(entity(x, cond)).evaluate())` is
+    `[o for o in domain if cond(o)]`, for every condition built from the public vocabulary in
+    which each leaf mentions `x`. -/
+theorem c01_filter_surface [Inhabited V] (hW : W.Lawful) (x : VarId) (sc : SCond V)
+    (hf : sc.noFlat = true) (hs : SCond.single x sc) :
+    rows W D ⟨[.var x], some (build sc)⟩ =
+      ((D x).filter fun o => sdenote W (constAsg o) sc).map fun o => [o] := by
+  rw [c01_filter W D x (build sc) (by rw [build_noFlat]; exact hf) (build_single x sc hs)]
+  simp only [build_denote W hW]
+
+/-- With distinct domain objects no object is returned twice. -/
+theorem c01_each_once [Inhabited V] (x : VarId) (c : Cond V) (hf : c.noFlat = true)
+    (hs : Cond.single x c) (hD : (D x).Nodup) : (rows W D ⟨[.var x], some c⟩).Nodup := by
+  rw [c01_filter W D x c hf hs, List.nodup_iff_pairwise_ne, List.pairwise_map]
+  have := (List.nodup_iff_pairwise_ne.1 hD).sublist (List.filter_sublist (p := fun o => denote W (constAsg o) c))
+  exact this.imp (fun h e => h (by simpa using e))
+
+private theorem dedupFrom_spec [BEq V] [LawfulBEq V] : ∀ (l seen : List V),
+    (∀ o, o ∈ dedupFrom seen l ↔ (o ∈ l ∧ o ∉ seen)) ∧ (dedupFrom seen l).Nodup := by
+  intro l
+  induction l with
+  | nil => intro seen; simp [dedupFrom]
+  | cons a as ih =>
+    intro seen
+    simp only [dedupFrom]
+    by_cases h : seen.contains a = true
+    · simp only [h, if_true]
+      have hm : a ∈ seen := by simpa using h
+      refine ⟨fun o => ?_, (ih seen).2⟩
+      rw [(ih seen).1 o]
+      constructor
+      · rintro ⟨h1, h2⟩; exact ⟨List.mem_cons_of_mem _ h1, h2⟩
+      · rintro ⟨h1, h2⟩
+        rcases List.mem_cons.1 h1 with e | e
+        · subst e; exact absurd hm h2
+        · exact ⟨e, h2⟩
+    · simp only [h, Bool.false_eq_true, if_false]
+      have hm : a ∉ seen := by simpa using h
+      refine ⟨fun o => ?_, ?_⟩
+      · rw [List.mem_cons, (ih (a :: seen)).1 o]
+        constructor
+        · rintro (e | ⟨h1, h2⟩)
+          · subst e; exact ⟨List.mem_cons_self, hm⟩
+          · exact ⟨List.mem_cons_of_mem _ h1, fun h3 => h2 (List.mem_cons_of_mem _ h3)⟩
+        · rintro ⟨h1, h2⟩
+          by_cases e : o = a
+          · exact Or.inl e
+          · right
+            rcases List.mem_cons.1 h1 with e' | e'
+            · exact absurd e' e
+            · exact ⟨e', fun h3 => by rcases List.mem_cons.1 h3 with e'' | e''; exact e e''; exact h2 e''⟩
+      · rw [List.nodup_cons]
+        refine ⟨fun hmem => ?_, (ih (a :: seen)).2⟩
+        have := ((ih (a :: seen)).1 a).1 hmem
+        exact this.2 List.mem_cons_self
+
+/-- The domain of `let(T, d)` (`mkDom`): exactly the members of `d` that are instances of `T`
+    (subclasses included through `isInst`) ... -/
+theorem c01_domain_instances [BEq V] [LawfulBEq V] (cls : String) (raw : List V) (o : V) :
+    o ∈ mkDom W cls raw ↔ (o ∈ raw ∧ W.isInst cls o = true) := by
+  simp [mkDom, (dedupFrom_spec _ _).1, List.mem_filter]
+
+/-- ... each object once. -/
+theorem c01_domain_nodup [BEq V] [LawfulBEq V] (cls : String) (raw : List V) :
+    (mkDom W cls raw).Nodup := (dedupFrom_spec _ _).2
+
 end Eql
